@@ -33,6 +33,10 @@ EXPLANATION = __doc__
 N, V = vm.NUMBERS, vm.VALUES
 
 
+def _swap_lr(text):
+    return text.replace('left', '\0').replace('right', 'left').replace('\0', 'right')
+
+
 def check(ctx, rep):
     mut = vm.mutator_methods(ctx)
     rep.note('mutator_methods', sorted(mut))
@@ -140,6 +144,35 @@ def check(ctx, rep):
             rep.ob('sign.negative', 'sign() is -1 iff non-zero and sign bit set',
                    facts.get('bytearray(self._buffer)[-1] == 0') is False and facts.get('bytearray(self._buffer)[-2] & 128 != 0') is True,
                    '', ctx.where(r))
+    # the sign of a two-byte integer is bit 7 of its *last* byte: every reader in the class looks there
+    icls = isign_cls = ctx.fn(N + ':Integer.sign')._parent
+    n_sb = 0
+    for n in ast.walk(icls):
+        if isinstance(n, ast.BinOp) and isinstance(n.op, ast.BitAnd) and isinstance(n.right, ast.Constant) and n.right.value == 0x80 and isinstance(n.left, ast.Subscript) \
+                and norm(n.left.value).startswith('bytearray(') and norm(n.left.value).endswith('._buffer)'):
+            n_sb += 1
+            k = ctx.fold(n.left.slice)
+            rep.ob('sign.integer-sign-bit-in-last-byte', 'Integer: %s' % short(n, 50), k in (-1, 1),
+                   'byte %r is not the high byte: the sign is wrong whenever bit 7 of that byte differs from the sign (128 reads as negative)' % (k,), ctx.where(n))
+    rep.floor('sign.integer-sign-bit-in-last-byte', n_sb, 4, 'sign-bit reads in class Integer')
+    # x*y and y*x (x+y and y+x) take the same path: every branch condition of the operator treats the operands alike
+    for name in ('mul', 'add'):
+        fn = ctx.fn('%s:%s' % (V, name))
+        n_t = 0
+        for n in own_nodes(fn):
+            if isinstance(n, ast.If):
+                n_t += 1
+                t = norm(n.test)
+                parts = sorted(norm(v) for v in n.test.values) if isinstance(n.test, ast.BoolOp) else [t]
+                sw = sorted(_swap_lr(x) for x in parts)
+                mentions = any(isinstance(x, ast.Name) and x.id in ('left', 'right') for x in ast.walk(n.test))
+                # `add` converts its left operand first and then matches the types of both: the test on `left` alone is
+                # followed by match_types(left, right), which is what makes it symmetric
+                one_sided_ok = name == 'add' and t == 'isinstance(left, numbers.Number)'
+                rep.ob('commutative.branches-treat-operands-alike', 'values.%s: `%s`' % (name, short(n.test, 60)), (not mentions) or parts == sw or one_sided_ok,
+                       'the branch is chosen by one operand only: x%sy and y%sx are computed differently (a zero with its sign bit set on the left is returned as it is)' % (('*', '*') if name == 'mul' else ('+', '+')),
+                       ctx.where(n))
+        rep.floor('commutative.branches-treat-operands-alike', n_t, 1, 'branches of values.%s' % name)
     isign = ctx.fn(N + ':Integer.sign')
     rets = sorted(norm(r.value) for r in vm.returns(isign))
     rep.ob('sign.values', 'Integer.sign returns only -1, 0, 1', rets == ['-1', '0', '1'], repr(rets), ctx.where(isign))
@@ -176,6 +209,14 @@ def variants(ctx):
         return lambda tree: f(mu.find_def(tree, fname))
 
     return [
+        Va('mul-returns-left-zero-as-it-is', 'break', V,
+           in_fn('mul', lambda fn: mu.insert_before(fn, lambda st: isinstance(st, ast.If), 'if isinstance(left, numbers.Number) and left.is_zero():\n    return left.to_float()')),
+           expect='commutative.branches-treat-operands-alike'),
+        Va('mul-extra-branch-not-on-operands', 'neutral', V,
+           in_fn('mul', lambda fn: mu.insert_before(fn, lambda st: isinstance(st, ast.If), 'if debug_flag:\n    pass')) ),
+        Va('integer-sign-from-low-byte', 'break', N,
+           in_fn('Integer.sign', lambda fn: mu.replace_expr(fn, mu.text_is('bytearray(self._buffer)[-1] & 128'), 'bytearray(self._buffer)[0] & 128')),
+           expect='sign.integer-sign-bit-in-last-byte'),
         Va('sub-mutates-left', 'break', V,
            in_fn('sub', lambda fn: mu.replace_expr(fn, mu.text_is('left.clone().isub(right)'), 'left.isub(right)')), expect='no-operand-mutation'),
         Va('mul-drops-clone', 'break', V,
